@@ -77,3 +77,24 @@ Example ex_port_env :
     Some {| a_user := "admin"; a_pass := "s3cret"; a_cors := false; a_origin := ""; a_mode := "reader" |} /\
   port_env [("QRYN_LOGIN", "admin"); ("QRYN_PASSWORD", "s3cret"); ("PORT", "31oo")] no_file [] = None.
 Proof. vm_compute. repeat split; reflexivity. Qed.
+
+(* ------------------------------------------------------------------ a configured password is never emptied
+   (portEnv copies the variables and the file's values verbatim: no trimming, no unquoting) *)
+Lemma nonempty_spec s : nonempty s = true <-> s <> "".
+Proof. unfold nonempty. destruct s; cbn; split; congruence. Qed.
+Lemma password_never_emptied e file preset c : port_env e file preset = Some c ->
+  (a_pass c = "" <-> getenv e "CLOKI_PASSWORD" = "" /\ getenv e "QRYN_PASSWORD" = "" /\ a_pass file = "") /\
+  (a_user c = "" <-> getenv e "CLOKI_LOGIN" = "" /\ getenv e "QRYN_LOGIN" = "" /\ a_user file = "").
+Proof.
+  intro H. destruct (port_env_credentials e file preset c H) as [Hu Hp]. rewrite Hu, Hp. split.
+  - destruct (nonempty (getenv e "CLOKI_PASSWORD")) eqn:A; [apply nonempty_spec in A; tauto|].
+    destruct (nonempty (getenv e "QRYN_PASSWORD")) eqn:B; [apply nonempty_spec in B; tauto|].
+    assert (A' : getenv e "CLOKI_PASSWORD" = "") by (destruct (getenv e "CLOKI_PASSWORD"); [reflexivity|discriminate]).
+    assert (B' : getenv e "QRYN_PASSWORD" = "") by (destruct (getenv e "QRYN_PASSWORD"); [reflexivity|discriminate]).
+    tauto.
+  - destruct (nonempty (getenv e "CLOKI_LOGIN")) eqn:A; [apply nonempty_spec in A; tauto|].
+    destruct (nonempty (getenv e "QRYN_LOGIN")) eqn:B; [apply nonempty_spec in B; tauto|].
+    assert (A' : getenv e "CLOKI_LOGIN" = "") by (destruct (getenv e "CLOKI_LOGIN"); [reflexivity|discriminate]).
+    assert (B' : getenv e "QRYN_LOGIN" = "") by (destruct (getenv e "QRYN_LOGIN"); [reflexivity|discriminate]).
+    tauto.
+Qed.
